@@ -280,6 +280,19 @@ func (c *Chain) EncodeTx(msgs []sdk.Msg) ([]byte, error) {
 	return c.TxCfg.TxEncoder()(b.GetTx())
 }
 
+// Simulate runs raw transaction bytes in the SDK's simulation mode against the last committed state (nothing is
+// written) and reports whether it would succeed.
+func (c *Chain) Simulate(raw []byte) (ok bool, log string) {
+	tag := TagOf(raw)
+	defer c.Ledger.ResetOrd(tag)
+	_, res, err := c.App.Simulate(raw)
+	if err != nil {
+		return false, err.Error()
+	}
+	_ = res
+	return true, ""
+}
+
 func blockTime(h int64) time.Time {
 	if BlockTimeBase.IsZero() {
 		return BlockTimeBase
